@@ -836,6 +836,65 @@ impl shapefile::record::EsriShape for BigLine {
     }
 }
 
+/// A point-typed user shape that keeps its contract but emits its 16 bytes through
+/// `Write::write_vectored` (two slices, partial counts honoured).
+struct VecPoint(f64, f64);
+impl shapefile::HasShapeType for VecPoint {
+    fn shapetype() -> shapefile::ShapeType {
+        shapefile::ShapeType::Point
+    }
+}
+impl shapefile::record::WritableShape for VecPoint {
+    fn size_in_bytes(&self) -> usize {
+        16
+    }
+    fn write_to<T: std::io::Write>(&self, dest: &mut T) -> Result<(), shapefile::Error> {
+        let mut bytes = [0u8; 16];
+        bytes[..8].copy_from_slice(&self.0.to_le_bytes());
+        bytes[8..].copy_from_slice(&self.1.to_le_bytes());
+        let mut done = 0usize;
+        while done < 16 {
+            let (a, b) = if done < 8 { (&bytes[done..8], &bytes[8..]) } else { (&bytes[done..], &bytes[16..]) };
+            let n = dest.write_vectored(&[std::io::IoSlice::new(a), std::io::IoSlice::new(b)])?;
+            if n == 0 {
+                return Err(std::io::Error::from(std::io::ErrorKind::WriteZero).into());
+            }
+            done += n;
+        }
+        Ok(())
+    }
+}
+impl shapefile::record::EsriShape for VecPoint {
+    fn x_range(&self) -> [f64; 2] {
+        [self.0, self.0]
+    }
+    fn y_range(&self) -> [f64; 2] {
+        [self.1, self.1]
+    }
+}
+
+/// A lazy iterator over one borrowed shape that announces `lower` further items (an honest lower
+/// bound: it would yield them) and gives up, loudly, should anybody really ask for more than a few.
+struct ManyOf<'a, S> {
+    shape: &'a S,
+    lower: usize,
+    upper: Option<usize>,
+    yielded: usize,
+}
+impl<'a, S> Iterator for ManyOf<'a, S> {
+    type Item = &'a S;
+    fn next(&mut self) -> Option<&'a S> {
+        self.yielded += 1;
+        if self.yielded > 4 {
+            panic!("shpsim: the bulk call went on after a shape it had to reject");
+        }
+        Some(self.shape)
+    }
+    fn size_hint(&self) -> (usize, Option<usize>) {
+        (self.lower, self.upper)
+    }
+}
+
 /// A polyline-typed user shape that honestly announces and emits `.0` bytes (of 0x11).
 struct SizedLine(usize);
 impl shapefile::HasShapeType for SizedLine {
@@ -1023,6 +1082,89 @@ pub fn execute_user(scn: &UserShapeScn, ctx: &mut Ctx) {
                 _ => ctx.fail("C12", "panic", "stderr-gone:child-died", format!("the child process with a standard error stream without a reader ended without a report ({:?})", status.map(|s| s.code()))),
             }
         }
+        "vectored" => {
+            // a caller's shape that emits its bytes with write_vectored: the files are judged by the
+            // strict decoder and the index check like any other (fin_after: finalize after that many)
+            for with_shx in [true, false] {
+                let world = World::new(Plan::default());
+                let fin_after = scn.fin_after;
+                let r = guarded(|| -> Result<(), String> {
+                    let shp = Stack::writer(&world, SHP, StackCfg::Direct);
+                    let mut w = if with_shx { shapefile::ShapeWriter::with_shx(shp, Stack::writer(&world, SHX, StackCfg::Direct)) } else { shapefile::ShapeWriter::new(shp) };
+                    for i in 0..3u32 {
+                        w.write_shape(&VecPoint(1.5 + i as f64, -2.25 * (i + 1) as f64)).map_err(|e| format!("write {}: {:?}", i, classify(&e)))?;
+                        if fin_after == i + 1 {
+                            w.finalize().map_err(|e| format!("finalize: {:?}", classify(&e)))?;
+                        }
+                    }
+                    Ok(())
+                });
+                match r {
+                    Err(p) => ctx.fail("C02", "panic", p.site(), p.text()),
+                    Ok(Err(e)) => ctx.fail("C02", "write-ok", "user-vectored", e),
+                    Ok(Ok(())) => {
+                        let wb = world.borrow();
+                        let geoms: Vec<Geom> = (0..3u32).map(|i| Geom { ty: 1, parts: vec![Part { kind: -1, pts: vec![[(1.5 + i as f64).to_bits(), (-2.25 * (i + 1) as f64).to_bits(), 0, 0]] }], bbox: None }).collect();
+                        let refs: Vec<&Geom> = geoms.iter().collect();
+                        let shx = wb.data(SHX).to_vec();
+                        check_bytes(ctx, 1, wb.data(SHP), if with_shx { Some(&shx) } else { None }, &refs, "user-vectored");
+                    }
+                }
+            }
+            ctx.stats.reach("user-defined-shape-writing-vectored");
+        }
+        "bulk-lazy" => {
+            // C10 for the consuming bulk call handed a lazy iterator that announces a huge (or endless)
+            // number of shapes of another type: the first of them is rejected with the mismatch error
+            // naming both types, and the files are what write + drop leaves
+            let hints: [(usize, Option<usize>); 5] = [(usize::MAX, None), (1 << 40, Some(1 << 40)), (i32::MAX as usize + 1, None), (i32::MAX as usize, Some(usize::MAX)), (0, None)];
+            let (lower, upper) = hints[(scn.fin_after as usize) % hints.len()];
+            for with_shx in [true, false] {
+                for swap in [false, true] {
+                    let run = |bulk: bool| -> Result<(Option<RErr>, Vec<u8>, Vec<u8>), PanicInfo> {
+                        guarded(move || {
+                            let world = World::new(Plan::default());
+                            let shp = Stack::writer(&world, SHP, StackCfg::Direct);
+                            let mut w = if with_shx { shapefile::ShapeWriter::with_shx(shp, Stack::writer(&world, SHX, StackCfg::Direct)) } else { shapefile::ShapeWriter::new(shp) };
+                            let point = shapefile::PointZ::new(1.0, 2.0, 3.0, 4.0);
+                            let line = shapefile::Polyline::new(vec![shapefile::Point::new(0.0, 0.0), shapefile::Point::new(1.0, 1.0)]);
+                            let mut err = None;
+                            if swap {
+                                let _ = w.write_shape(&line);
+                                if bulk {
+                                    err = w.write_shapes(ManyOf { shape: &point, lower, upper, yielded: 0 }).err().map(|e| classify(&e));
+                                } else {
+                                    drop(w);
+                                }
+                            } else {
+                                let _ = w.write_shape(&point);
+                                if bulk {
+                                    err = w.write_shapes(ManyOf { shape: &line, lower, upper, yielded: 0 }).err().map(|e| classify(&e));
+                                } else {
+                                    drop(w);
+                                }
+                            }
+                            let wb = world.borrow();
+                            (err, wb.data(SHP).to_vec(), wb.data(SHX).to_vec())
+                        })
+                    };
+                    let (file_ty, offered) = if swap { (3, 11) } else { (11, 3) };
+                    let site = format!("bulk-lazy:{}<-{}", type_name(file_ty), type_name(offered));
+                    match (run(true), run(false)) {
+                        (Err(p), _) | (_, Err(p)) => ctx.fail("C10", "panic", p.site(), format!("write_shapes of a lazy iterator announcing {:?} shapes of type {} into a {} file: {}", (lower, upper), type_name(offered), type_name(file_ty), p.text())),
+                        (Ok((err, shp, shx)), Ok((_, gshp, gshx))) => {
+                            if err != Some(RErr::Mismatch { requested: file_ty, actual: offered }) {
+                                ctx.fail("C10", "mismatch-error", site.clone(), format!("write_shapes of a lazy iterator announcing {:?} shapes of type {} into a {} file returned {:?}", (lower, upper), type_name(offered), type_name(file_ty), err));
+                            }
+                            if shp != gshp || shx != gshx {
+                                ctx.fail("C10", "rejected-write-changes-nothing", site, format!("after the rejected bulk call the files differ from write + drop (.shp {} vs {} bytes, .shx {} vs {})", shp.len(), gshp.len(), shx.len(), gshx.len()));
+                            }
+                        }
+                    }
+                }
+            }
+            ctx.stats.reach("rejected-bulk-call-of-a-lazy-iterator");
+        }
         "sized" => {
             // the size ladder of C09: a record of `fin_after` bytes (every even size in turn, so that
             // the file length a finalize sees takes every value of a range), a finalize, further
@@ -1206,6 +1348,8 @@ pub fn user_unit(unit: u64, ctx: &mut Ctx, ctl: &mut UnitCtl) {
         // one record of 2 GiB - 1 MiB, 2 GiB, 3 GiB (the size in MiB travels in `fin_after`)
         4 => [2047u32, 2048, 3072].iter().map(|m| UserShapeScn { kind: "huge".into(), fin_after: *m, fail_op: 0 }).collect(),
         6 => vec![UserShapeScn { kind: "stderr-gone".into(), fin_after: 0, fail_op: 0 }],
+        7 => (0..=3u32).map(|f| UserShapeScn { kind: "vectored".into(), fin_after: f, fail_op: 0 }).collect(),
+        8 => (0..5u32).map(|f| UserShapeScn { kind: "bulk-lazy".into(), fin_after: f, fail_op: 0 }).collect(),
         // the size ladder: every even size from 4 to 4096 bytes (the size travels in `fin_after`)
         5 => (2..=2048u32).map(|h| UserShapeScn { kind: "sized".into(), fin_after: 2 * h, fail_op: 0 }).collect(),
         _ => {
